@@ -6,6 +6,11 @@ topologies over up to 3 classes with edges {Optional[X], list[X], dict[str, X], 
 every class and every container of a cyclic class as root, values of nesting depth 0..D; the mechanism
 model runs along the observed node orders.  Oracle: round trip, conformance and "no raw level" on the
 implementation at every depth; construction terminates.
+Round 3 (harness/c07_spell.py): the TEXT of a recursive definition is a dimension of the programs quantified over:
+recursive string-valued aliases (alone, mutually recursive, in cycles through classes) and cyclic classes with string
+annotations, each written in every legal spelling (bare / typing. / t. / from-imported / collections.abc. / quoted
+inside / quoted as a whole), classes presenting their hints at class level, only in the __init__ signature, or
+nested in another class.  Aliases: reference semantics vs implementation; classes: the three mechanism streams.
 """
 from __future__ import annotations
 
@@ -16,15 +21,18 @@ import signal
 import warnings
 
 import bridgetie
+import c07_spell
 import coregen
 import coremodel
 import coreprop
 import impl
 import lib
+import c17_hints
 import universe
 
 COQ_TARGETS = ["theories/Props/C07.vo", "theories/Model/BuildTables.vo", "theories/Model/CoreTables.vo",
                "theories/Props/C05Bridge.vo", "theories/Model/GraphBridgeEq.vo"]
+COQ_TARGETS = COQ_TARGETS + [t for t in c17_hints.COQ_TARGETS if t not in COQ_TARGETS]
 THEOREMS = ["C07_build_total", "C07_no_raw_level", "C07_all_depths"]
 EDGES = ["opt", "list", "dict", "tuple", "bar"]
 
@@ -219,29 +227,83 @@ def build_groups(run):
     return groups, records, D
 
 
+def spelled_groups(run, D):
+    """the two strata of harness/c07_spell.py: (alias groups, records), (class groups, records)"""
+    # the depth dimension proper (D = 100 in thorough) is the business of the cycle-topology stream above; the
+    # spelled strata go to depth 30 there: a ten-class module at depth 100 costs the mechanism model > 15 min per file
+    Ds = min(D, 30)
+    depths = sorted(set([0, 1, 2, 5, 12, Ds]))
+    ga, ra = c07_spell.build(run, "alias", depths, Ds)
+    gc, rc = c07_spell.build(run, "class", depths, Ds)
+    c07_spell.fresh_typing()
+    return ga, ra, gc, rc
+
+
 def correspond(run: lib.Run):
     groups, records, D = build_groups(run)
-    run._c07 = (groups, records, D)
+    run.log(f"cycle topologies: {len(groups)} modules, {sum(len(g.cases) for g in groups)} cases")
+    ga, ra, gc, rc = spelled_groups(run, D)
+    run.log(f"spelled strata: {len(ga)} alias modules ({sum(len(g.cases) for g in ga)} cases), "
+            f"{len(gc)} class modules ({sum(len(g.cases) for g in gc)} cases)")
+    run._c07 = (groups, records, D, ga, ra, gc, rc)
     problems = []
-    for g in groups:
+    for g in groups + gc:
         for t in g.pytys:
             g.collect_orders(t)
         problems += g.order_problems
+    c07_spell.fresh_typing()
+    bridge_groups = groups
+    groups = groups + gc
+    records = records + rc
     run.oblige("tie:every observed graph node has a model annotation", not problems, "; ".join(problems[:3]))
+    run.log("observed orders collected")
+    # recursive string-valued aliases: outside the mechanism model (its named objects are classes), inside the
+    # reference semantics (NType): member-wise conversion of every level, whatever the text looks like.
+    # (evaluated while the mechanism streams are: both are coqc processes)
+    import threading
+    alias_bad, alias_done = [], []
+
+    def eval_aliases():
+        alias_bad.extend(coremodel.evaluate_groups(run, ga, "c07a", per_file=5))
+        alias_done.append(True)
+    th = threading.Thread(target=eval_aliases)
+    if run.tier != "thorough":
+        th.start()          # quick: the two evaluations share the machine; thorough: one pool of coqc at a time
+    # heavy (ten classes) and light modules alternate, so that the case files take about equally long
+    heavy = [g for g in gc if g.c07_label.startswith("self/")]
+    light = [g for g in gc if not g.c07_label.startswith("self/")]
+    mixed = [g for pair in itertools.zip_longest(heavy, light) for g in pair if g is not None]
+    groups = groups[:len(groups) - len(gc)] + mixed
     bs, bm, ba = coremodel.evaluate_groups_mech(run, groups, "c07", per_file=4)
+    if run.tier == "thorough":
+        th.start()
+    th.join()
+    run.oblige("evaluate:recursive-alias stream was evaluated by the model", bool(alias_done), "evaluation thread died")
+    run.log("model evaluated on all streams")
     ncases = sum(len(g.cases) for g in groups)
     distinct = len({(g.env["module"], c[0], c[1], c[2]) for g in groups for c in g.cases})
     dist = {"groups": len(groups), "max_depth": D,
             "depth_histogram": {str(d): sum(1 for r in records if r.case_index.get("depth") == d)
                                 for d in sorted({r.case_index.get("depth") for r in records})},
-            "observed_raise": sum(1 for g in groups for c in g.cases if "Raise" in c[3])}
+            "observed_raise": sum(1 for g in groups for c in g.cases if "Raise" in c[3]),
+            "spelled_class_stratum": c07_spell.distribution(gc, rc)}
     run.record_corr("reference-semantics-vs-implementation", ncases, [g.cases[i][4] for g, i in bs], distinct, dist)
     run.record_corr("mechanism-on-observed-order-vs-implementation", ncases, [g.cases[i][4] for g, i in bm], distinct, dist)
     run.record_corr("mechanism-vs-reference-semantics", ncases, [g.cases[i][4] for g, i in ba], distinct, dist)
     if groups and groups[0].cases:
         run.samples.append(groups[0].cases[-1][4])
     # the order contract assumed by this property's theorems is decided through the graph model (notes/bridge.md)
-    bridgetie.bridge_obligations(run, groups, "c07")
+    bridgetie.bridge_obligations(run, bridge_groups, "c07")
+    try:      # the class environments handed to the core model are what the code's own hint machinery yields
+        c17_hints.hints_obligations(run, bridge_groups, "c07")
+    except Exception as ex:
+        run.oblige("tie:c17_hints.hints_obligations ran to completion", False, repr(ex)[:400])
+    bad = alias_bad if alias_done else [(g, i) for g in ga for i in range(len(g.cases))]
+    na = sum(len(g.cases) for g in ga)
+    run.record_corr("reference-semantics-vs-implementation:recursive-string-aliases", na,
+                    [dict(g.cases[i][4], module_source=g.src[g.src.index("import typing as t"):][:600]) for g, i in bad],
+                    len({(g.env["module"], c[0], c[1], c[2]) for g in ga for c in g.cases}),
+                    dict(c07_spell.distribution(ga, ra), observed_raise=sum(1 for g in ga for c in g.cases if "Raise" in c[3])))
 
 
 # ----------------------------------------------------------------------------------
@@ -262,8 +324,12 @@ def raw_levels(v, env, mod, t):
 
     def walk(val, ty, path):
         k = ty[0]
-        if k == "name":
+        if k == "wrapref":
+            return walk(val, ty[1], path)
+        if k in ("name", "ref"):
             d = env["defs"][ty[1]]
+            if d[0] == "alias":
+                return walk(val, d[2] if isinstance(d[1], str) else d[1], path)
             cls = getattr(mod, coregen.cname(ty[1]))
             if d[1] == "typeddict":
                 if not isinstance(val, dict):
@@ -293,7 +359,12 @@ def raw_levels(v, env, mod, t):
         elif k == "union":
             if val is None:
                 return
+            if ty[2][-1][0] == "leaf" and not isinstance(val, (list, tuple, dict)):
+                return walk(val, ty[2][-1], path)        # `C[X] | int`: the scalar member
             walk(val, ty[2][0], path)
+        elif k == "leaf" and ty[1] == "int":
+            if type(val) is not int:
+                bad.append(path)
     walk(v, t, [])
     return bad
 
@@ -312,15 +383,39 @@ def raw_in_wire(w, module):
     return bad
 
 
+def _where(g, ri):
+    """what replay() needs to rebuild the module of a spelled group and its root (other groups: module_source)"""
+    if "c07" not in g.env:
+        return {}
+    return {"env": {"module": g.env["module"], "defs": {str(k): v for k, v in g.env["defs"].items()},
+                    "c07": g.env["c07"]}, "tdesc": g.roots[ri], "depth": 0, "stratum": getattr(g, "c07_label", "")}
+
+
 def search(run: lib.Run, broken):
     from typelib import codec, marshals, unmarshals
-    groups, records, D = getattr(run, "_c07", (None, None, None))
+    groups, records, D, ga, ra, gc, rc = getattr(run, "_c07", (None,) * 7)
     if groups is None:
         groups, records, D = build_groups(run)
+        ga, ra, gc, rc = spelled_groups(run, D)
+    groups = groups + gc + ga
+    records = records + rc + ra
     fails = []
-    stats = {"evaluations": 0, "nontrivial": 0, "builds": 0}
+    stats = {"evaluations": 0, "nontrivial": 0, "builds": 0, "codec_round_trips": 0, "corpus": 0}
     signal.signal(signal.SIGALRM, _alarm)
+    # corpus first: minimised regression inputs (replay payloads)
+    for name, payload in corpus():
+        stats["corpus"] += 1
+        try:
+            r = replay(payload)
+        except BaseException as e:
+            r = {"fails": True, "failures": [{"symptom": "corpus case could not be replayed", "got": repr(e)[:300]}]}
+        if r.get("fails"):
+            f0 = r["failures"][0]
+            fails.append(dict(payload, symptom=f0.get("symptom", "corpus case fails") + f" [corpus {name}]",
+                              got=f0.get("got"), depth=f0.get("depth", payload.get("depth")), key=f"C07-corpus-{name}",
+                              symptom_class="a corpus case fails"))
     for g in groups:
+        c07_spell.fresh_typing()
         for ri, t in enumerate(g.pytys):
             impl.clear_caches()
             signal.alarm(10)
@@ -330,17 +425,19 @@ def search(run: lib.Run, broken):
                     marshals.marshaller(t); unmarshals.unmarshaller(t); codec(t)
                 stats["builds"] += 1
             except Timeout:
-                fails.append({"symptom": "construction does not terminate (10 s)", "type": repr(t),
-                              "module_source": g.src, "key": f"C07-build-timeout-{t!r}"})
+                fails.append(dict(_where(g, ri), symptom="construction does not terminate (10 s)", type=repr(t),
+                                  module_source=g.src, key=f"C07-build-timeout-{t!r}"))
             except BaseException as e:
-                fails.append({"symptom": "construction raised", "type": repr(t), "got": repr(e),
-                              "module_source": g.src, "key": f"C07-build-{type(e).__name__}-{t!r}"})
+                fails.append(dict(_where(g, ri), symptom="construction raised", type=repr(t), got=repr(e),
+                                  module_source=g.src, key=f"C07-build-{type(e).__name__}-{t!r}"))
             finally:
                 signal.alarm(0)
+    c07_spell.fresh_typing()
     from props import c15
     for f in c15.class_topologies(run, stats):
         fails.append({"symptom": "construction raised", "type": f["annotation"], "got": repr(f["got"]),
                       "module_source": f["module_source"], "key": "C07-build-topology-" + f["key"]})
+    last_group = None
     for rec in records:
         g = rec.group
         d = rec.case_index.get("depth")
@@ -348,6 +445,9 @@ def search(run: lib.Run, broken):
         base = {"type": repr(rec.pytype), "depth": d, "value": repr(rec.value)[:300], "module_source": g.src,
                 "env": {"module": g.env["module"], "defs": {str(k): v for k, v in g.env["defs"].items()}},
                 "tdesc": rec.tdesc}
+        if "c07" in g.env:
+            base["env"]["c07"] = g.env["c07"]
+            base["stratum"] = f"{rec.case_index.get('stratum')}:{rec.case_index.get('label')}"
         if rec.wire[0] != "ok":
             if rec.wire[1] == "ERecursion" and d is not None and d > 60:
                 continue            # beyond what the interpreter's default recursion limit allows
@@ -373,22 +473,56 @@ def search(run: lib.Run, broken):
                                                  f"round trip through the {tag} form does not restore the value"),
                                   raw_positions=raw[:5], got=repr(obs[1])[:300], input=repr(x)[:300],
                                   key=f"C07-{tag}-{rec.pytype!r}-{d}"))
+        if "c07" in g.env and d in (1, 2):
+            # spelled strata: the codec of the same annotation (encode, then decode) restores the value as well
+            stats["codec_round_trips"] += 1
+            if g is not last_group:
+                c07_spell.fresh_typing()
+                last_group = g
+            impl.clear_caches()
+            try:
+                with warnings.catch_warnings():
+                    warnings.simplefilter("ignore")
+                    cdc = codec(rec.pytype)
+                    back = cdc.decode(cdc.encode(rec.value))
+                if not coreprop.same(back, rec.value):
+                    fails.append(dict(base, symptom="codec round trip (encode, decode) does not restore the value",
+                                      got=repr(back)[:300], key=f"C07-codec-{rec.pytype!r}-{d}"))
+            except BaseException as e:
+                fails.append(dict(base, symptom="codec round trip (encode, decode) raised", got=repr(e)[:300],
+                                  key=f"C07-codec-raise-{rec.pytype!r}-{d}"))
     run.search_stats["oracle"] = {
         "evaluations": stats["evaluations"], "distinct_nontrivial": stats["nontrivial"], "builds": stats["builds"],
+        "codec_round_trips": stats["codec_round_trips"], "corpus_cases": stats["corpus"],
         "max_depth": D, "failures": len(fails),
         "rule": "every cycle topology x root x depth: marshal then unmarshal (wire, JSON text for shallow values, and "
                 "the valid value itself) must restore the value with the right class at every level; routine "
                 "construction (marshaller, unmarshaller, codec) must terminate within 10 s; non-trivial = a value "
-                "came back and was compared",
+                "came back and was compared.  Spelled strata (recursive string-valued aliases, string annotations of "
+                "cyclic classes in every spelling / presentation): additionally the un-converted form of the value "
+                "(every scalar as text, every class as a dict, every tuple as a list) must unmarshal to the value, "
+                "and the codec must round-trip it",
     }
     best = {}
     for f in fails:
-        k = f["symptom"]
+        k = f.get("symptom_class", f["symptom"])      # one representative per kind of failure (corpus: one in all)
         size = (f.get("depth") or 0, len(f.get("value", "")))
         if k not in best or size < best[k][0]:
             best[k] = (size, f)
     coreprop.close(groups)
+    c07_spell.fresh_typing()
     return [v[1] for v in best.values()]
+
+
+def corpus():
+    import os
+    d = os.path.join(lib.VERIF, "corpus", "C07")
+    out = []
+    if os.path.isdir(d):
+        for name in sorted(os.listdir(d)):
+            if name.endswith(".json"):
+                out.append((name, json.load(open(os.path.join(d, name)))))
+    return out
 
 
 def _tup(x):
@@ -422,10 +556,15 @@ def replay(payload):
             impl.drop_module("verif_c07_replay")
     if "env" not in payload or "tdesc" not in payload:
         return {"fails": False, "note": "replay needs env + tdesc (see module_source for a manual replay)"}
+    spelled = "c07" in payload["env"]
     env = {"module": payload["env"]["module"] + "_replay",
            "defs": {(int(k) if k.isdigit() else k): _tup(v) for k, v in payload["env"]["defs"].items()}}
     root = _tup(payload["tdesc"])
-    mod, tys, src = universe.materialise(env, [root])
+    if spelled:
+        env["c07"] = payload["env"]["c07"]
+        mod, tys, src = c07_spell.materialise(env, [root])
+    else:
+        mod, tys, src = universe.materialise(env, [root])
     t, problems = tys[0], []
     try:
         signal.signal(signal.SIGALRM, _alarm)
@@ -434,7 +573,7 @@ def replay(payload):
             impl.clear_caches()
             with warnings.catch_warnings():
                 warnings.simplefilter("ignore")
-                marshals.marshaller(t); unmarshals.unmarshaller(t); codec(t)
+                marshals.marshaller(t); unmarshals.unmarshaller(t); cdc = codec(t)
         except BaseException as e:
             return {"fails": True, "failures": [{"symptom": "construction raised / did not terminate", "got": repr(e)}]}
         finally:
@@ -442,23 +581,37 @@ def replay(payload):
         rng = random.Random(1)
         cn = 0 if root[0] != "name" else root[1]
         for d in range(0, min(int(payload.get("depth") or 3), 40) + 1):
-            v = wrap_root(root, deep_value(rng, env, mod, cn, d))
+            if spelled:
+                b = c07_spell.Builder(env, mod)
+                v, raw = b.node(root[1], d) if root[0] == "name" else b.of_type(root, d)
+                forms = (("wire", None), ("valid", v), ("raw", raw))
+            else:
+                v = wrap_root(root, deep_value(rng, env, mod, cn, d))
+                forms = (("wire", None), ("valid", v))
             try:
-                w = marshals.marshal(v, t=t)
-                if raw_in_wire(w, env["module"]):
-                    problems.append({"symptom": "a level is passed through raw by the marshaller", "depth": d,
-                                     "got": repr(w)[:300]})
-                for tag, x in (("wire", w), ("valid", v)):
-                    r = unmarshals.unmarshal(t, x)
-                    if not coreprop.same(r, v):
-                        problems.append({"symptom": f"round trip through the {tag} form does not restore the value",
-                                         "depth": d, "got": repr(r)[:300], "expected": repr(v)[:300]})
+                with warnings.catch_warnings():
+                    warnings.simplefilter("ignore")
+                    w = marshals.marshal(v, t=t)
+                    if raw_in_wire(w, env["module"]):
+                        problems.append({"symptom": "a level is passed through raw by the marshaller", "depth": d,
+                                         "got": repr(w)[:300]})
+                    for tag, x in forms:
+                        r = unmarshals.unmarshal(t, w if tag == "wire" else x)
+                        if not coreprop.same(r, v):
+                            problems.append({"symptom": f"round trip through the {tag} form does not restore the value",
+                                             "depth": d, "got": repr(r)[:300], "expected": repr(v)[:300]})
+                    if spelled:
+                        r = cdc.decode(cdc.encode(v))
+                        if not coreprop.same(r, v):
+                            problems.append({"symptom": "codec round trip (encode, decode) does not restore the value",
+                                             "depth": d, "got": repr(r)[:300], "expected": repr(v)[:300]})
             except BaseException as e:
                 problems.append({"symptom": "valid recursive value raised", "depth": d, "got": repr(e)[:300]})
             if problems:
                 break
     finally:
         impl.drop_module(env["module"])
+        c07_spell.fresh_typing()
     return {"fails": bool(problems), "failures": problems}
 
 
